@@ -51,7 +51,10 @@ const DIRECTED: &[(&[u8], Entry)] = &[
 
 /// Iterate a TLV section; Err(items) if it yields more than n/3 + 1 items.
 fn walk_tlvs(it: v2::TypeLengthValues<'_>) -> Result<usize, usize> {
-    let n = it.as_bytes().len();
+    // a copy that is never advanced: what it reports is the section as handed over (a tree may
+    // legitimately make the accessors of a *consumed* iterator describe the remainder)
+    let original = it;
+    let n = original.as_bytes().len();
     let bound = n / 3 + 1;
     let _ = it.len();
     let _ = it.is_empty();
@@ -100,7 +103,7 @@ fn walk_tlvs(it: v2::TypeLengthValues<'_>) -> Result<usize, usize> {
     }
     // the rest of the Iterator interface, on fresh copies and on the exhausted one: these must
     // return normally too (what they return is C11's business)
-    let fresh = v2::TypeLengthValues::from(it.as_bytes());
+    let fresh = original;
     for k in [0usize, 1, 2, 3, 7] {
         let mut c = fresh;
         let _ = c.nth(k);
@@ -113,7 +116,7 @@ fn walk_tlvs(it: v2::TypeLengthValues<'_>) -> Result<usize, usize> {
         let _ = fresh.step_by(k + 1).take(4).count();
     }
     let _ = fresh.size_hint();
-    let dense = n >= 6 && it.as_bytes()[1..3] == [0, 0] && it.as_bytes()[4..6] == [0, 0];
+    let dense = n >= 6 && original.as_bytes()[1..3] == [0, 0] && original.as_bytes()[4..6] == [0, 0];
     if n <= 2048 || dense {
         // called on the iterator itself, not through an adaptor, so that an override of these
         // methods is what runs (a non-terminating one is the watchdog's business)
